@@ -855,7 +855,10 @@ __guess_dtyp(struct strpd_s d)
 {
 	struct dt_d_s res = {DT_DUNK};
 
-	if (LIKELY(d.y > 0 && d.c <= 0 && !d.flags.c_wcnt_p && !d.flags.bizda)) {
+	if (LIKELY(d.y > 0 && d.c <= 0 && !d.flags.c_wcnt_p && !d.flags.bizda) ||
+	    /* a week number next to a complete year-month-day is redundant */
+	    (d.y > 0 && d.m > 0 && d.d > 0 && d.flags.c_wcnt_p &&
+	     !d.flags.d_dcnt_p && !d.flags.bizda)) {
 		/* nearly all goes to ymd */
 		res.typ = DT_YMD;
 		res.ymd.y = d.y;
